@@ -246,6 +246,21 @@ func genQuery(r *lib.Rand, ids []uint64, absent uint64) ReadSpec {
 	return rs
 }
 
+// a POST that sets to null a non-empty subset (mask bits 1, 2, 4) of {f, f_user, f_time}
+func nullPost(id uint64, f string, mask int, sameUser bool) OpSpec {
+	parts := []string{fmt.Sprintf(`"bodyid":%d`, id)}
+	if mask&1 != 0 {
+		parts = append(parts, fmt.Sprintf(`"%s":null`, f))
+	}
+	if mask&2 != 0 {
+		parts = append(parts, fmt.Sprintf(`"%s_user":null`, f))
+	}
+	if mask&4 != 0 {
+		parts = append(parts, fmt.Sprintf(`"%s_time":null`, f))
+	}
+	return OpSpec{Kind: "post", Key: id, Body: "{" + strings.Join(parts, ",") + "}", SameUser: sameUser}
+}
+
 func post(id uint64, body string) OpSpec { return OpSpec{Kind: "post", Key: id, Body: body} }
 func del(id uint64) OpSpec              { return OpSpec{Kind: "delete", Key: id} }
 
@@ -323,6 +338,25 @@ func corpus() []CaseSpec {
 		post(10, `{"bodyid":10,"a":1}`), {Kind: "metapost", Meta: 1, Val: `{"x":1}`}, {Kind: "commit"},
 		{Kind: "branch", From: 0}, {Kind: "reload"}, {Kind: "newversion"}, post(20, `{"bodyid":20,"a":1}`)},
 		Reads: stdReads([]uint64{10, 20}, 15)})
+	// nulls of every subset of {f, f_user, f_time}: right after the write that set f (same second)
+	// by the same and by another user, repeated, and of absent fields; the standard observation
+	// points read the result through the store (parent, restart) and the tail updates the child
+	{
+		var ops []OpSpec
+		ids := []uint64{}
+		for mask := 1; mask <= 7; mask++ {
+			id := uint64(20 + mask)
+			ids = append(ids, id)
+			ops = append(ops, post(id, fmt.Sprintf(`{"bodyid":%d,"note":"n%d","a":1}`, id, mask)), nullPost(id, "note", mask, mask%2 == 0))
+		}
+		ops = append(ops,
+			post(30, `{"bodyid":30,"note":"x","a":1}`), nullPost(30, "note", 1, true), nullPost(30, "note", 1, true), nullPost(30, "note", 7, false),
+			nullPost(31, "note", 7, false), post(31, `{"bodyid":31,"a":1}`), nullPost(31, "zz", 7, false), nullPost(31, "zz", 1, true),
+			post(32, `{"bodyid":32,"note":"x","s":"y"}`), OpSpec{Kind: "sleep"}, nullPost(32, "note", 7, false), nullPost(32, "s", 6, false),
+			post(33, `{"bodyid":33,"note":"x"}`), OpSpec{Kind: "commit"}, OpSpec{Kind: "newversion"}, nullPost(33, "note", 7, false),
+			post(21, `{"bodyid":21,"b":2}`), post(27, `{"bodyid":27,"b":2}`))
+		cs = append(cs, CaseSpec{Name: "corpus-null-companions", Ops: ops, Reads: stdReads(append(ids, 30, 31, 32, 33), 15)})
+	}
 	// field merge rules
 	cs = append(cs, CaseSpec{Name: "corpus-stamps", Ops: []OpSpec{
 		post(7, `{"bodyid":7,"a":1,"s":"x","b":[1,2],"a_time":"2020-01-01T00:00:00Z"}`),
@@ -370,6 +404,23 @@ func genCase(r *lib.Rand, name string, thorough bool) CaseSpec {
 				op.HasCond, op.Conds = true, []string{pickS(r, fieldPool), pickS(r, fieldPool)}
 			}
 			ops = append(ops, op)
+			if r.Chance(0.25) { // null some of {f, f_user, f_time} of a field, often one the POST just set
+				f := pickS(r, fieldPool)
+				if m := mustObj(op.Body); r.Chance(0.7) {
+					for k := range m {
+						if k != "bodyid" && !strings.HasSuffix(k, "_user") && !strings.HasSuffix(k, "_time") {
+							f = k
+							break
+						}
+					}
+				}
+				if f != "user" {
+					ops = append(ops, nullPost(id, f, 1+r.Intn(7), r.Bool()))
+					if r.Chance(0.3) {
+						ops = append(ops, nullPost(id, f, 1+r.Intn(7), r.Bool()))
+					}
+				}
+			}
 		case x < 60:
 			var items []KV
 			for i := 0; i < 2+r.Intn(2); i++ {
